@@ -78,7 +78,8 @@ def run_subcheck(tree, cid, seed):
 NEW_UNION = "missing-handler:new-union"
 # families whose purpose is to exhibit the missing-handler finding: only the checks whose failures carry dispatch-trace keys are run on
 # them, so that every failing input is attributed (nothing is masked behind the known finding)
-FAMILY_CHECKS = {"literal-union-member": ["C04", "C09", "C01"], "refs-open-enums": ["C04", "C09", "C01"], "refs-aliases": ["C01"]}   # (C04/C09 need a class table; cattrs cannot even generate the structure function of the new classes here)
+FAMILY_CHECKS = {"variant-literals": ["C08"],        # unions of variant literals: the .NET plugin merges them into one record (python: same remark as below)
+                 "literal-union-member": ["C04", "C09", "C01"], "refs-open-enums": ["C04", "C09", "C01"], "refs-aliases": ["C01"]}   # (C04/C09 need a class table; cattrs cannot even generate the structure function of the new classes here)
 
 
 def finding_keys(sub, base_unions=frozenset()):
@@ -129,6 +130,9 @@ def run(chk):
     if chk.tier == "quick":
         k = chk.seed % (len(sysm) - 2)
         models = [sysm[1], sysm[2 + k]]             # the combined "core" model + one systematic family rotating with the seed
+        vl = [x for x in sysm if x[0] == "variant-literals"]
+        if vl and vl[0][0] != sysm[2 + k][0]:
+            models.append(vl[0])                      # cheap (one .NET sub-check): always
         m, log = evolve.random_model(mm, rng, rng.choice([3, 5, 8]))
         models.append(("random-%d" % chk.seed, m))
         checks = QUICK_CHECKS
